@@ -412,6 +412,7 @@ def run_gif(case):
 def run_chart(case):
     import warnings
     import matplotlib.pyplot as plt
+    from job_shop_lib.dispatching import Dispatcher
     from job_shop_lib.visualization import plot_gantt_chart
 
     inst = common.build_instance(case["spec"])
@@ -425,6 +426,13 @@ def run_chart(case):
         kw["number_of_x_ticks"] = case["nt"]
     with warnings.catch_warnings():
         warnings.simplefilter("ignore")
+        if case.get("open_before") is not None:
+            # another chart of the same instance (same default title) is still open: comparing two schedules
+            # side by side. Each call draws its own chart.
+            d0 = Dispatcher(inst)
+            for j, p, m in case["open_before"]:
+                d0.dispatch(inst.jobs[j][p], m)
+            plot_gantt_chart(d0.schedule, cmap_name=CMAPS[case["cmap"]])
         fig, ax = plot_gantt_chart(sched, xlim=(case["xlim"][0] if case["xlim"] else None),
                                    cmap_name=CMAPS[case["cmap"]], job_labels=job_labels,
                                    machine_labels=machine_labels, **kw)
@@ -433,7 +441,7 @@ def run_chart(case):
         obs = read_axes(ax, inst.num_jobs, CMAPS[case["cmap"]], prefix,
                         machine_labels or [str(i) for i in range(nm)])
     finally:
-        plt.close(fig)
+        plt.close("all")
     obs["rows"] = _rows_of(sched)
     obs["flags"].append(same_axes)
     return obs
@@ -505,6 +513,9 @@ class C20(Check):
         case["nt"] = None if r < 0.3 else rng.choice([1, 2, 3, 4, 7, 15, 16, 40, rng.randint(1, 200)])
         case["cmap"] = 1 if rng.random() < 0.2 else 0
         case["labels"] = 1 if rng.random() < 0.2 else 0
+        if rng.random() < 0.25:
+            case["open_before"] = random_history(rng, spec, rng.randint(1, total))
+            self.note("chart_while_another_chart_is_open")
         st = common.instance_stats(spec)
         for k in ("flexible", "zero"):
             if st[k]:
@@ -765,6 +776,8 @@ class C20(Check):
         return case
 
     def shrink_candidates(self, case):
+        if case.get("open_before") is not None:
+            yield {k: v for k, v in case.items() if k != "open_before"}
         if case.get("warm"):
             yield {k: v for k, v in case.items() if k != "warm"}
             yield dict(case, warm=case["warm"][:-1])
